@@ -60,21 +60,21 @@ def exportWordPiece (arrived : List (Id × Bytes)) : List (Id × Bytes) :=
   arrived.mergeSort fun x y => x.1 < y.1 || (x.1 == y.1 && bytesLe x.2 y.2)
 
 /-- `Kitoken::to_definition` for a tokenizer built from `d`, with the iteration orders of the
-    vocabulary map (`pv`) and of the specials map (`ps`) given as reorderings. Configuration and
-    metadata are cloned. -/
+    vocabulary maps (`pv`, `pvs`) given as reorderings. Configuration and metadata are cloned; the specials are
+    returned in the order the tokenizer was built with (after the F25 repair the tokenizer keeps the list as given;
+    before it they came out of a hash map and were re-sorted with `specialLe`, which changed the split priority of
+    a definition listed in any other order). -/
 def exportDefinition (d : Definition) (pv : List (Id × Bytes) → List (Id × Bytes))
-    (pvs : List ((Id × Bytes) × UInt32) → List ((Id × Bytes) × UInt32))
-    (ps : List SpecialDef → List SpecialDef) : Res Definition :=
-  let specials := (ps d.specials).mergeSort specialLe
+    (pvs : List ((Id × Bytes) × UInt32) → List ((Id × Bytes) × UInt32)) : Res Definition :=
   match d.model with
   | .bytePair vocab chars =>
-    .ok { d with model := .bytePair (exportBpe vocab (pv vocab)) chars, specials := specials }
+    .ok { d with model := .bytePair (exportBpe vocab (pv vocab)) chars }
   | .unigram vocab scores =>
     match exportUnigram (pvs (vocab.zip scores)) with
-    | .ok sorted => .ok { d with model := .unigram (sorted.map (·.1)) (sorted.map (·.2)), specials := specials }
+    | .ok sorted => .ok { d with model := .unigram (sorted.map (·.1)) (sorted.map (·.2)) }
     | .err e => .err e
     | .panic p => .panic p
   | .wordPiece vocab maxw =>
-    .ok { d with model := .wordPiece (exportWordPiece (pv vocab)) maxw, specials := specials }
+    .ok { d with model := .wordPiece (exportWordPiece (pv vocab)) maxw }
 
 end Kitoken
